@@ -156,11 +156,11 @@ theorem length_getOpenFile_le (cap : Nat) (d : Disk α) (t : Table) (j : Nat) (h
 /-- without a fault: the loop variables evolve as in the specification -/
 theorem iterStep_spec [Inhabited α] (c : Cfg α δ) (hm : c.memo = false) (d : Disk α) (base : Nat)
     (k : Option Nat) (s : ISt α) (j : Nat) (P : Nat → Prop) (hj : P (base + j)) (h : OkOn P d s.obj.tbl)
-    (hio : s.io = false) :
+    (hio : s.io = none) :
     (iterStep c d base none k s j).st = specIterStep c d base k s.st j ∧
-      (iterStep c d base none k s j).io = false ∧ OkOn P d (iterStep c d base none k s j).obj.tbl := by
+      (iterStep c d base none k s j).io = none ∧ OkOn P d (iterStep c d base none k s j).obj.tbl := by
   unfold iterStep specIterStep
-  simp only [hm, statSize_code, bycatchView_code, hio, Bool.or_false]
+  simp only [hm, statSize_code, bycatchView_code, hio, Option.isSome_none, Bool.or_false, faultAt]
   split
   · exact ⟨rfl, hio, h⟩
   · split
@@ -168,14 +168,14 @@ theorem iterStep_spec [Inhabited α] (c : Cfg α δ) (hm : c.memo = false) (d : 
     · have hg := getOpenFile_ok c.cap (base + j) h hj
       rw [hg.1]
       cases openPath d (base + j) with
-      | ok i => exact ⟨by simp, by simp [hio], hg.2⟩
+      | ok i => exact ⟨rfl, by simp [hio], hg.2⟩
       | error e => exact ⟨rfl, by simp [hio], hg.2⟩
 
 theorem foldl_iterStep_spec [Inhabited α] (c : Cfg α δ) (hm : c.memo = false) (d : Disk α) (base : Nat)
     (k : Option Nat) (js : List Nat) (s : ISt α) (P : Nat → Prop) (hP : ∀ j ∈ js, P (base + j))
-    (h : OkOn P d s.obj.tbl) (hio : s.io = false) :
+    (h : OkOn P d s.obj.tbl) (hio : s.io = none) :
     (js.foldl (iterStep c d base none k) s).st = js.foldl (specIterStep c d base k) s.st ∧
-      (js.foldl (iterStep c d base none k) s).io = false ∧
+      (js.foldl (iterStep c d base none k) s).io = none ∧
       OkOn P d (js.foldl (iterStep c d base none k) s).obj.tbl := by
   induction js generalizing s with
   | nil => exact ⟨rfl, hio, h⟩
@@ -194,10 +194,10 @@ theorem iterRun_spec [Inhabited α] (c : Cfg α δ) (hm : c.memo = false) (d : D
       OkOn P d (iterRun c d base none k o).2.tbl := by
   have := foldl_iterStep_spec c hm d base k (List.range c.sizes.length) { obj := o } P hP h rfl
   simp only [iterRun]
-  exact ⟨by rw [this.1, this.2.1]; rfl, this.2.2⟩
+  exact ⟨by rw [this.1, this.2.1], this.2.2⟩
 
 /-- with or without a fault: operations only add current handles -/
-theorem iterStep_okOn [Inhabited α] (c : Cfg α δ) (d : Disk α) (base : Nat) (fault : Option Nat)
+theorem iterStep_okOn [Inhabited α] (c : Cfg α δ) (d : Disk α) (base : Nat) (fault : Option Fault)
     (k : Option Nat) (s : ISt α) (j : Nat) (h : OkOn (fun _ => True) d s.obj.tbl) :
     OkOn (fun _ => True) d (iterStep c d base fault k s j).obj.tbl := by
   have hs : ∀ key, (statSize c.memo d s.obj key).2.tbl = s.obj.tbl := by
@@ -219,7 +219,7 @@ theorem iterStep_okOn [Inhabited α] (c : Cfg α δ) (d : Disk α) (base : Nat) 
       · split <;> exact hg.2
       · exact hg.2
 
-theorem foldl_iterStep_okOn [Inhabited α] (c : Cfg α δ) (d : Disk α) (base : Nat) (fault : Option Nat)
+theorem foldl_iterStep_okOn [Inhabited α] (c : Cfg α δ) (d : Disk α) (base : Nat) (fault : Option Fault)
     (k : Option Nat) (js : List Nat) (s : ISt α) (h : OkOn (fun _ => True) d s.obj.tbl) :
     OkOn (fun _ => True) d (js.foldl (iterStep c d base fault k) s).obj.tbl := by
   induction js generalizing s with
@@ -246,10 +246,10 @@ theorem getPieceLoop_spec (c : Cfg α δ) (hm : c.memo = false) (d : Disk α) (b
       simp only
       split
       · exact ⟨rfl, hg.2⟩
-      · simp only [reduceCtorEq, ↓reduceIte]
+      · simp only [faultAt, Option.isSome_none, Bool.false_eq_true, ↓reduceIte]
         exact ih _ _ _ _ (fun j hj => hP j (List.mem_cons_of_mem _ hj)) hg.2
 
-theorem getPieceLoop_okOn (c : Cfg α δ) (d : Disk α) (base : Nat) (fault : Option Nat) (rel : List Nat)
+theorem getPieceLoop_okOn (c : Cfg α δ) (d : Disk α) (base : Nat) (fault : Option Fault) (rel : List Nat)
     (seekTo n : Nat) (piece : List α) (o : Obj) (h : OkOn (fun _ => True) d o.tbl) :
     OkOn (fun _ => True) d (getPieceLoop c d base fault rel seekTo n piece o).2.tbl := by
   have hs : ∀ (o : Obj) key, (statSize c.memo d o key).2.tbl = o.tbl := by
@@ -297,7 +297,7 @@ theorem getPiece_spec (c : Cfg α δ) (hm : c.memo = false) (d : Disk α) (base 
         · exact ⟨rfl, this.2⟩
         · exact ⟨rfl, this.2⟩
 
-theorem getPiece_okOn (c : Cfg α δ) (d : Disk α) (base : Nat) (fault : Option Nat) (i : Int) (o : Obj)
+theorem getPiece_okOn (c : Cfg α δ) (d : Disk α) (base : Nat) (fault : Option Fault) (i : Int) (o : Obj)
     (h : OkOn (fun _ => True) d o.tbl) :
     OkOn (fun _ => True) d (getPiece c d base fault i o).2.tbl := by
   unfold getPiece
@@ -368,7 +368,7 @@ theorem run_clean [BEq δ] [Inhabited α] (c : Cfg α δ) (hm : c.memo = false) 
   (run_spec c hm d arg op o (· ∈ touched c arg op) (fun _ hj => hj) ((cleanFor_iff c d arg op o.tbl).1 h)).1
 
 /-- with or without a fault, whatever the answer: an object without stale handles has none afterwards -/
-theorem run_keeps_noStale [BEq δ] [Inhabited α] (c : Cfg α δ) (d : Disk α) (arg fault : Option Nat)
+theorem run_keeps_noStale [BEq δ] [Inhabited α] (c : Cfg α δ) (d : Disk α) (arg : Option Nat) (fault : Option Fault)
     (op : Handles.Op) (o : Obj) (h : noStale d o.tbl = true) :
     noStale d (run c d arg fault op o).obj.tbl = true := by
   rw [noStale_iff] at h ⊢
@@ -582,7 +582,7 @@ theorem statSize_tbl (m : Bool) (d : Disk α) (o : Obj) (j : Nat) : (statSize m 
     · split <;> rfl
   · rfl
 
-theorem iterStep_bound [Inhabited α] (c : Cfg α δ) (d : Disk α) (base : Nat) (fault : Option Nat)
+theorem iterStep_bound [Inhabited α] (c : Cfg α δ) (d : Disk α) (base : Nat) (fault : Option Fault)
     (k : Option Nat) (s : ISt α) (j : Nat) (h : s.obj.tbl.length ≤ c.cap + 1) :
     (iterStep c d base fault k s j).obj.tbl.length ≤ c.cap + 1 := by
   unfold iterStep
@@ -597,14 +597,14 @@ theorem iterStep_bound [Inhabited α] (c : Cfg α δ) (d : Disk α) (base : Nat)
       · split <;> exact this
       · exact this
 
-theorem foldl_iterStep_bound [Inhabited α] (c : Cfg α δ) (d : Disk α) (base : Nat) (fault : Option Nat)
+theorem foldl_iterStep_bound [Inhabited α] (c : Cfg α δ) (d : Disk α) (base : Nat) (fault : Option Fault)
     (k : Option Nat) (js : List Nat) (s : ISt α) (h : s.obj.tbl.length ≤ c.cap + 1) :
     (js.foldl (iterStep c d base fault k) s).obj.tbl.length ≤ c.cap + 1 := by
   induction js generalizing s with
   | nil => exact h
   | cons j js ih => exact ih _ (iterStep_bound c d base fault k s j h)
 
-theorem getPieceLoop_bound (c : Cfg α δ) (d : Disk α) (base : Nat) (fault : Option Nat) (rel : List Nat)
+theorem getPieceLoop_bound (c : Cfg α δ) (d : Disk α) (base : Nat) (fault : Option Fault) (rel : List Nat)
     (seekTo n : Nat) (piece : List α) (o : Obj) (h : o.tbl.length ≤ c.cap + 1) :
     (getPieceLoop c d base fault rel seekTo n piece o).2.tbl.length ≤ c.cap + 1 := by
   induction rel generalizing seekTo n piece o with
@@ -621,7 +621,7 @@ theorem getPieceLoop_bound (c : Cfg α δ) (d : Disk α) (base : Nat) (fault : O
         · rw [statSize_tbl]; exact hg
         · exact ih _ _ _ _ (by rw [statSize_tbl]; exact hg)
 
-theorem getPiece_bound (c : Cfg α δ) (d : Disk α) (base : Nat) (fault : Option Nat) (i : Int) (o : Obj)
+theorem getPiece_bound (c : Cfg α δ) (d : Disk α) (base : Nat) (fault : Option Fault) (i : Int) (o : Obj)
     (h : o.tbl.length ≤ c.cap + 1) : (getPiece c d base fault i o).2.tbl.length ≤ c.cap + 1 := by
   unfold getPiece
   simp only
@@ -634,7 +634,7 @@ theorem getPiece_bound (c : Cfg α δ) (d : Disk α) (base : Nat) (fault : Optio
       · exact this
       · split <;> exact this
 
-theorem run_bound [BEq δ] [Inhabited α] (c : Cfg α δ) (d : Disk α) (arg fault : Option Nat)
+theorem run_bound [BEq δ] [Inhabited α] (c : Cfg α δ) (d : Disk α) (arg : Option Nat) (fault : Option Fault)
     (op : Handles.Op) (o : Obj) (h : o.tbl.length ≤ c.cap + 1) :
     (run c d arg fault op o).obj.tbl.length ≤ c.cap + 1 := by
   cases op with
@@ -687,35 +687,219 @@ theorem runAllD_bound [BEq δ] [Inhabited α] (c : Cfg α δ) (d : Disk α) (ss 
       · exact h
       · exact ih { c with stored := hs } d o h r hr
 
-/-! ### the only undocumented error of `get_piece` needs a stale handle -/
+/-! ### undocumented errors need a stale handle or a seek fault inside `iter_pieces` -/
 
-theorem specGetPieceLoop_no_typeError (c : Cfg α δ) (d : Disk α) (base : Nat) (rel : List Nat)
-    (seekTo n : Nat) (piece : List α) : specGetPieceLoop c d base rel seekTo n piece ≠ .error .typeError := by
+/-- the documented outcomes: ValueError, VerifyFileSizeError, ReadError -/
+def Err.documented : Err → Bool
+  | .value | .size | .readNoent | .readOther => true
+  | .assertion | .osError | .internal => false
+
+/-- the number of bytes the loop of `get_piece` collects when every relevant file has its recorded
+    size (a function of the torrent only) -/
+def readLen (sizes : List Nat) : List Nat → Nat → Nat → Nat
+  | [], _, _ => 0
+  | j :: js, seekTo, n =>
+    let k := min n (Missing.sizeOf sizes j - seekTo)
+    k + readLen sizes js 0 (n - k)
+
+/-- the geometry helpers name files and a first offset that yield exactly the expected piece
+    length (what property C11 proves about the code's geometry) and raise documented errors only -/
+def GeomConsistent (c : Cfg α δ) : Prop :=
+  ∀ n, match c.geom n with
+    | .ok (rel, seekTo) => readLen c.sizes rel seekTo c.L = Handles.expLen c.L c.total n
+    | .error e => e.documented = true
+
+theorem specGetPieceLoop_length (c : Cfg α δ) (d : Disk α) (base : Nat) (rel : List Nat) (seekTo n : Nat)
+    (piece p : List α) (h : specGetPieceLoop c d base rel seekTo n piece = .ok p) :
+    p.length = piece.length + readLen c.sizes rel seekTo n := by
   induction rel generalizing seekTo n piece with
-  | nil => simp [specGetPieceLoop]
+  | nil =>
+    simp only [specGetPieceLoop, Except.ok.injEq] at h
+    simp [readLen, h]
   | cons j js ih =>
-    unfold specGetPieceLoop
+    unfold specGetPieceLoop at h
     cases ho : openPath d (base + j) with
-    | error e =>
-      simp only
-      intro h
-      injection h with h
-      subst h
-      simp only [openPath] at ho
-      split at ho <;> simp at ho
+    | error e => simp [ho] at h
     | ok i =>
-      have hs : (d.size (base + j)).isNone = false := by
+      have hs : d.size (base + j) = some (d.bytes i).length := by
         simp only [openPath] at ho
         simp only [Disk.size]
         split at ho <;> simp_all
-      simp only [hs]
-      split
-      · simp
-      · exact ih _ _ _
+      simp only [ho, hs, Option.isSome_some, Bool.true_and] at h
+      split at h
+      · simp at h
+      · rename_i hne
+        have hlen : (d.bytes i).length = Missing.sizeOf c.sizes j := by simpa using hne
+        rw [ih _ _ _ h]
+        simp only [readLen, List.length_append, List.length_take, List.length_drop, hlen]
+        omega
 
-theorem specGetPiece_no_typeError (c : Cfg α δ) (hg : ∀ n, c.geom n ≠ .error .typeError) (d : Disk α)
-    (base : Nat) (i : Int) : specGetPiece c d base i ≠ .error .typeError := by
-  unfold specGetPiece
+theorem specGetPiece_documented (c : Cfg α δ) (hg : GeomConsistent c) (d : Disk α) (base : Nat)
+    (i : Int) (e : Err) (h : specGetPiece c d base i = .error e) : e.documented = true := by
+  unfold specGetPiece at h
+  simp only at h
+  split at h
+  · injection h with h; subst h; rfl
+  · have hgi := hg i.toNat
+    cases hgeom : c.geom i.toNat with
+    | error e' =>
+      simp only [hgeom] at h hgi
+      injection h with h
+      subst h
+      exact hgi
+    | ok r =>
+      obtain ⟨rel, seekTo⟩ := r
+      simp only [hgeom] at h hgi
+      cases hl : specGetPieceLoop c d base rel seekTo c.L [] with
+      | error e' =>
+        simp only [hl] at h
+        injection h with h
+        subst h
+        -- errors of the loop: ReadError from `open`, VerifyFileSizeError
+        clear hgi hgeom
+        generalize c.L = n at hl
+        generalize ([] : List α) = piece at hl
+        induction rel generalizing seekTo n piece with
+        | nil => simp [specGetPieceLoop] at hl
+        | cons j js ih =>
+          unfold specGetPieceLoop at hl
+          cases ho : openPath d (base + j) with
+          | error e'' =>
+            simp only [ho] at hl
+            injection hl with hl
+            subst hl
+            simp only [openPath] at ho
+            split at ho <;> simp at ho <;> subst ho <;> rfl
+          | ok i' =>
+            simp only [ho] at hl
+            split at hl
+            · injection hl with hl; subst hl; rfl
+            · exact ih _ _ _ hl
+      | ok p =>
+        simp only [hl] at h
+        split at h
+        · rename_i hne
+          have := specGetPieceLoop_length c d base rel seekTo c.L [] p hl
+          simp only [List.length_nil, Nat.zero_add] at this
+          exact absurd (this.trans hgi) hne
+        · simp at h
+
+/-- the specification never answers with an undocumented error, except `internal` from the loop of
+    `iter_pieces` (excluded by `C10_no_internal_error` under C10's hypothesis) -/
+theorem specOut_documented [BEq δ] [Inhabited α] (c : Cfg α δ) (hg : GeomConsistent c) (d : Disk α)
+    (arg : Option Nat) (op : Handles.Op) (e : Err) (h : specOut c d arg op = .err e) :
+    e.documented = true ∨ e = .internal := by
+  cases op with
+  | iterFull =>
+    simp only [specOut, iterOut] at h
+    split at h
+    · injection h with h; exact Or.inr h.symm
+    · simp at h
+  | iterAbandon k =>
+    simp only [specOut, iterOut] at h
+    split at h
+    · injection h with h; exact Or.inr h.symm
+    · simp at h
+  | getPiece i =>
+    simp only [specOut] at h
+    cases hp : specGetPiece c d (c.base arg) i with
+    | ok p => simp [hp] at h
+    | error e' =>
+      simp only [hp] at h
+      injection h with h
+      subst h
+      exact Or.inl (specGetPiece_documented c hg d _ i _ hp)
+  | getPieceHash i =>
+    simp only [specOut, hashOut] at h
+    cases hp : specGetPiece c d (c.base arg) i with
+    | ok p => simp [hp] at h
+    | error e' =>
+      have hd := specGetPiece_documented c hg d _ i _ hp
+      simp only [hp] at h
+      cases e' <;> first | (simp at h; done) | (injection h with h; subst h; exact Or.inl hd)
+  | verifyPiece i =>
+    simp only [specOut] at h
+    cases hpi : Handles.pyIndex c.stored i with
+    | none => simp only [hpi] at h; injection h with h; subst h; exact Or.inl rfl
+    | some st =>
+      simp only [hpi] at h
+      cases hp : specGetPiece c d (c.base arg) i with
+      | ok p => simp [hp] at h
+      | error e' =>
+        have hd := specGetPiece_documented c hg d _ i _ hp
+        simp only [hp] at h
+        cases e' <;> first | (simp at h; done) | (injection h with h; subst h; exact Or.inl hd)
+  | close => simp [specOut] at h
+  | ctxExit => simp [specOut] at h
+
+/-! #### a raw OSError only escapes from a seek fault inside `iter_pieces` -/
+
+theorem iterStep_io [Inhabited α] (c : Cfg α δ) (d : Disk α) (base : Nat) (fault : Option Fault)
+    (hf : ∀ f, fault = some f → f.seek = false) (k : Option Nat) (s : ISt α) (j : Nat)
+    (h : s.io ≠ some .osError) : (iterStep c d base fault k s j).io ≠ some .osError := by
+  unfold iterStep
+  split
+  · exact h
+  · simp only
+    split
+    · exact h
+    · split
+      · split
+        · rename_i isSeek hfa
+          have : isSeek = false := by
+            unfold faultAt at hfa
+            cases hfault : fault with
+            | none => simp [hfault] at hfa
+            | some f =>
+              simp only [hfault] at hfa
+              split at hfa
+              · injection hfa with hfa; rw [← hfa]; exact hf f hfault
+              · simp at hfa
+          simp [this]
+        · exact h
+      · exact h
+
+theorem foldl_iterStep_io [Inhabited α] (c : Cfg α δ) (d : Disk α) (base : Nat) (fault : Option Fault)
+    (hf : ∀ f, fault = some f → f.seek = false) (k : Option Nat) (js : List Nat) (s : ISt α)
+    (h : s.io ≠ some .osError) : (js.foldl (iterStep c d base fault k) s).io ≠ some .osError := by
+  induction js generalizing s with
+  | nil => exact h
+  | cons j js ih => exact ih _ (iterStep_io c d base fault hf k s j h)
+
+theorem getPieceLoop_no_osError (c : Cfg α δ) (d : Disk α) (base : Nat) (fault : Option Fault)
+    (rel : List Nat) (seekTo n : Nat) (piece : List α) (o : Obj) :
+    (getPieceLoop c d base fault rel seekTo n piece o).1 ≠ .error .osError := by
+  induction rel generalizing seekTo n piece o with
+  | nil => simp [getPieceLoop]
+  | cons j js ih =>
+    unfold getPieceLoop
+    simp only
+    split
+    · rename_i e he
+      unfold getOpenFile at he
+      split at he
+      · simp at he
+      · simp only at he
+        cases ho : openPath d (base + j) with
+        | ok i => simp [ho] at he
+        | error e' =>
+          simp only [ho] at he
+          simp only [openPath] at ho
+          intro hcontra
+          injection hcontra with hcontra
+          subst hcontra
+          injection he with he
+          subst he
+          split at ho <;> simp at ho
+    · split
+      · simp
+      · split
+        · simp
+        · exact ih _ _ _ _
+
+theorem getPiece_no_osError (c : Cfg α δ) (hg : ∀ n, c.geom n ≠ .error .osError) (d : Disk α) (base : Nat)
+    (fault : Option Fault) (i : Int) (o : Obj) : (getPiece c d base fault i o).1 ≠ .error .osError := by
+  unfold getPiece
   simp only
   split
   · simp
@@ -728,52 +912,70 @@ theorem specGetPiece_no_typeError (c : Cfg α δ) (hg : ∀ n, c.geom n ≠ .err
     | ok r =>
       obtain ⟨rel, seekTo⟩ := r
       simp only
-      have := specGetPieceLoop_no_typeError c d base rel seekTo c.L []
-      cases hl : specGetPieceLoop c d base rel seekTo c.L [] with
-      | error e =>
-        simp only
+      have := getPieceLoop_no_osError c d base fault rel seekTo c.L [] o
+      split
+      · rename_i e he
         intro h
         injection h with h
-        exact this (h ▸ hl)
-      | ok p =>
-        simp only
-        split <;> simp
+        exact this (h ▸ he)
+      · split <;> simp
 
-theorem specOut_no_typeError [BEq δ] [Inhabited α] (c : Cfg α δ)
-    (hg : ∀ n, c.geom n ≠ .error .typeError) (d : Disk α) (arg : Option Nat) (op : Handles.Op) :
-    specOut c d arg op ≠ .err .typeError := by
+/-- only `iter_pieces` hit by a SEEK fault answers with a raw OSError -/
+theorem run_no_osError [BEq δ] [Inhabited α] (c : Cfg α δ) (hg : ∀ n, c.geom n ≠ .error .osError)
+    (d : Disk α) (arg : Option Nat) (fault : Option Fault) (op : Handles.Op) (o : Obj)
+    (hf : (∀ f, fault = some f → f.seek = false) ∨ (op ≠ .iterFull ∧ ∀ k, op ≠ .iterAbandon k)) :
+    (run c d arg fault op o).out ≠ .err .osError := by
+  have hiter : ∀ k, (∀ f, fault = some f → f.seek = false) →
+      (iterRun c d (c.base arg) fault k o).1 ≠ (.err .osError : Out α δ) := by
+    intro k hf'
+    have := foldl_iterStep_io c d (c.base arg) fault hf' k (List.range c.sizes.length) { obj := o } (by simp)
+    simp only [iterRun]
+    split
+    · rename_i e he
+      intro h
+      injection h with h
+      exact this (h ▸ he)
+    · simp only [iterOut]
+      split <;> simp
   cases op with
-  | iterFull => simp only [specOut, iterOut]; split <;> simp
-  | iterAbandon k => simp only [specOut, iterOut]; split <;> simp
+  | iterFull =>
+    rcases hf with hf | hf
+    · exact hiter none hf
+    · exact absurd rfl hf.1
+  | iterAbandon k =>
+    rcases hf with hf | hf
+    · exact hiter (some k) hf
+    · exact absurd rfl (hf.2 k)
   | getPiece i =>
-    have := specGetPiece_no_typeError c hg d (c.base arg) i
-    simp only [specOut]
-    cases h : specGetPiece c d (c.base arg) i with
+    have := getPiece_no_osError c hg d (c.base arg) fault i o
+    simp only [run]
+    rcases hr : getPiece c d (c.base arg) fault i o with ⟨x, u⟩
+    rw [hr] at this
+    cases x with
     | ok p => simp
     | error e =>
       simp only
-      intro h'
-      injection h' with h'
-      exact this (h' ▸ h)
+      intro h
+      injection h with h
+      exact this (by rw [h])
   | getPieceHash i =>
-    have := specGetPiece_no_typeError c hg d (c.base arg) i
-    simp only [specOut, hashOut]
-    cases h : specGetPiece c d (c.base arg) i with
+    have := getPiece_no_osError c hg d (c.base arg) fault i o
+    simp only [run, hashOut]
+    cases hr : (getPiece c d (c.base arg) fault i o).1 with
     | ok p => simp
-    | error e =>
-      cases e <;> simp_all
+    | error e => cases e <;> simp_all
   | verifyPiece i =>
-    have := specGetPiece_no_typeError c hg d (c.base arg) i
-    simp only [specOut]
+    have := getPiece_no_osError c hg d (c.base arg) fault i o
+    simp only [run]
     cases Handles.pyIndex c.stored i with
     | none => simp
     | some st =>
       simp only
-      cases h : specGetPiece c d (c.base arg) i with
+      cases hr : (getPiece c d (c.base arg) fault i o).1 with
       | ok p => simp
       | error e => cases e <;> simp_all
-  | close => simp [specOut]
-  | ctxExit => simp [specOut]
+  | close => simp [run]
+  | ctxExit => simp [run]
 
 /-! ### sequential iteration = property C10's model on the disk as it is now -/
 
